@@ -110,7 +110,7 @@ class GenRun:
 
     def drive(self, allocs=False, skip_pkgs=()):
         """Build and run the reflection driver; returns dict key -> fields."""
-        metas = [m for m in self.meta if m["generated"] and m["pkg"] not in skip_pkgs]
+        metas = [m for m in self.meta if m["generated"] and m["pkg"] not in skip_pkgs and not ("a" <= m["type"][:1] <= "z" or m["type"][:1] == "_")]
         mp = os.path.join(self.dir, "meta_drv.json")
         json.dump(metas, open(mp, "w"))
         run([self.gh, "driver", "-in", self.scen_path, "-dir", self.moddir, "-meta", mp], check=True)
